@@ -8,9 +8,10 @@ from sx import is_sym, sand, sor, snot
 
 
 class MathStub:
-    def __init__(self, g, tag="m"):
+    def __init__(self, g, tag="m", pairwise=True):
         self.g = g
         self.tag = tag
+        self.pairwise = pairwise     # relate every call to all earlier ones (monotone, functional)
         self.logs = []     # (arg, value)
         self.exps = []
         self.calls = []    # ("log"|"exp", arg, value) in call order
@@ -33,6 +34,8 @@ class MathStub:
 
     def _consistent(self, table, x, y):
         g = self.g
+        if not self.pairwise:
+            return
         for x2, y2 in table:
             g.assume(sand(sor(snot(x == x2), y == y2), sor(snot(x < x2), y < y2), sor(snot(x > x2), y > y2)))
 
@@ -43,7 +46,7 @@ class MathStub:
         y = g.real(f"{self.tag}LOG{len(self.logs)}")
         g.assume(sand(sor(snot(x > 1), y > 0), sor(snot(x == 1), y == 0), sor(snot(x < 1), y < 0)))
         self._consistent(self.logs, x, y)
-        for xe, ye in self.exps:      # exp(log(x)) == x  where both occur
+        for xe, ye in (self.exps if self.pairwise else []):      # exp(log(x)) == x  where both occur
             g.assume(sor(snot(xe == y), ye == x))
         self.logs.append((x, y))
         self.calls.append(("log", x, y))
@@ -54,7 +57,7 @@ class MathStub:
         y = g.real(f"{self.tag}EXP{len(self.exps)}")
         g.assume(sand(y > 0, sor(snot(x > 0), y > 1), sor(snot(x == 0), y == 1), sor(snot(x < 0), y < 1)))
         self._consistent(self.exps, x, y)
-        for xl, yl in self.logs:
+        for xl, yl in (self.logs if self.pairwise else []):
             g.assume(sor(snot(yl == x), y == xl))
         self.exps.append((x, y))
         self.calls.append(("exp", x, y))
